@@ -31,7 +31,9 @@ def _lit(node, env):
     """literal value of an AST node; `*deprels` is expanded from env"""
     if isinstance(node, ast.Constant):
         return node.value
-    if isinstance(node, (ast.List, ast.Tuple)):
+    if isinstance(node, ast.Call) and getattr(node.func, "id", None) in ("tuple", "list", "set", "frozenset") and len(node.args) == 1:
+        return _lit(node.args[0], env)
+    if isinstance(node, (ast.List, ast.Tuple, ast.Set)):
         res = []
         for e in node.elts:
             if isinstance(e, ast.Starred):
@@ -84,6 +86,15 @@ def extract():
         if k not in env:
             _err(k + " not found")
         out[k] = env[k]
+    # every other module-level constant collection (a table may be written in the function or hoisted to module level)
+    for n in cons.body:
+        if isinstance(n, ast.Assign) and len(n.targets) == 1 and isinstance(n.targets[0], ast.Name) and n.targets[0].id not in env:
+            try:
+                v = _lit(n.value, env)
+            except Exception:  # noqa: not a literal
+                continue
+            if isinstance(v, (list, dict)):
+                env[n.targets[0].id] = v
     # makeOptionMethod calls
     opts = []
     for n in cons.body:
@@ -151,13 +162,27 @@ def extract():
     out["typKinds"] = typ_kinds
     # dOpt
     do = _func(cons, "dOpt", "Constituent")
-    keys = []
+    # the two collections of allowed keys, found by content: assigned in the function (any name) or tested with `in`
+    cands = []
     for n in ast.walk(do):
-        if isinstance(n, ast.Assign) and getattr(n.targets[0], "id", None) == "allowedKeys":
-            keys.append(_lit(n.value, env))
-    if len(keys) != 2 or "rtime" not in keys[0] or "mprecision" not in keys[1]:
-        _err("dOpt allowedKeys: %r" % (keys,))
-    out["dOptKeysDT"], out["dOptKeysNO"] = keys
+        val = None
+        if isinstance(n, ast.Assign):
+            val = n.value
+        elif isinstance(n, ast.Compare) and len(n.ops) == 1 and isinstance(n.ops[0], (ast.In, ast.NotIn)):
+            val = n.comparators[0]
+        if val is None:
+            continue
+        try:
+            v = _lit(val, env)
+        except Exception:  # noqa
+            continue
+        if isinstance(v, list) and v and all(isinstance(x, str) for x in v) and v not in cands:
+            cands.append(v)
+    dtk = [v for v in cands if "rtime" in v]
+    nok = [v for v in cands if "mprecision" in v]
+    if len(dtk) != 1 or len(nok) != 1:
+        _err("dOpt allowed keys: expected one collection with 'rtime' and one with 'mprecision', found %r / %r" % (dtk, nok))
+    out["dOptKeysDT"], out["dOptKeysNO"] = dtk[0], nok[0]
     for fn in ("nat", "maje"):
         f = _func(cons, fn, "Constituent")
         kinds = None
@@ -194,13 +219,31 @@ def extract():
     # utils.fromJSON accepted types
     ut = _parse("utils.py")
     fj = _func(ut, "fromJSON")
+    uenv = dict(env)            # utils.py's own module-level constant collections
+    for n in ut.body:
+        if isinstance(n, ast.Assign) and len(n.targets) == 1 and isinstance(n.targets[0], ast.Name):
+            try:
+                v = _lit(n.value, uenv)
+            except Exception:  # noqa
+                continue
+            if isinstance(v, (list, dict)):
+                uenv[n.targets[0].id] = v
     acc = []
     for n in ast.walk(fj):
-        if isinstance(n, ast.Compare) and isinstance(n.ops[0], ast.In) and getattr(n.left, "id", None) == "constType":
-            acc.append(_lit(n.comparators[0], env))
-    if len(acc) != 3:
+        if isinstance(n, ast.Compare) and isinstance(n.ops[0], ast.In) and isinstance(n.left, ast.Name):
+            try:
+                v = _lit(n.comparators[0], uenv)
+            except Exception:  # noqa
+                continue
+            if isinstance(v, list) and v and all(isinstance(x, str) for x in v):
+                acc.append(v)
+    # by content: the phrase kinds hold "NP", the dependency relations "root", the terminal kinds "N"
+    ph = [v for v in acc if "NP" in v]
+    dp = [v for v in acc if "root" in v]
+    tm = [v for v in acc if "N" in v and "NP" not in v]
+    if len(ph) != 1 or len(dp) != 1 or len(tm) != 1:
         _err("fromJSON accepted types: %r" % (acc,))
-    out["jsonPhraseKinds"], out["jsonDepKinds"], out["jsonTermKinds"] = acc
+    out["jsonPhraseKinds"], out["jsonDepKinds"], out["jsonTermKinds"] = ph[0], dp[0], tm[0]
     # toJSON: the keys emitted (checked to exist: terminal/lemma, phrase/elements, dependent/terminal/dependents, lang, props)
     for fname, cls, keys_ in (("Terminal.py", "Terminal", ["terminal", "lemma", "lang"]),
                               ("Phrase.py", "Phrase", ["phrase", "elements", "lang"]),
